@@ -37,10 +37,12 @@ package NoKV
 // already committed (committed == MaxUint64, i.e. a directory written through the plain
 // non-transactional API, is excluded by the property itself).
 //@ func (*oracle).initCommitState
-//@   property C12
+//@   property C12 C04
 //@   ensures [next-above-committed] o != nil && committed != 0 && committed < 18446744073709551615 ==> o.nextTxnTs.v > committed
 //@   ensures [never-lowers-next] o != nil && committed < 18446744073709551615 ==> o.nextTxnTs.v >= old(o.nextTxnTs.v)
 
+// (frame of applyRequests: it writes the LSM, the value-log head and the requests' entries,
+// none of which commitWorker reads afterwards; the batch's request list is untouched)
 // C09 kernel (one commit batch, sequential): a batch's requests are acknowledged with a
 // nil error only after the value log write succeeded and - with SyncWrites - after a
 // successful WAL sync that followed the application of the batch. Ghost state is reset
@@ -69,7 +71,7 @@ package NoKV
 //@   ghost batchSyncs = 0
 //@   ghost batchFailedAt = result
 //@   ensures [failed-at-in-range] (result1 == nil) == (result == -1) && (result1 != nil ==> 0 <= result && result < len(reqs))
-//@   modifies heap
+//@   modifies nothing
 //@ func github.com/feichai0017/NoKV/wal::(*Manager).Sync
 //@   trusted
 //@   ghost batchSyncs = (result == nil ? batchSyncs + 1 : batchSyncs)
@@ -92,11 +94,12 @@ package NoKV
 //@   modifies nothing
 
 //@ func (*DB).commitWorker
-//@   property C09
+//@   property C09 C04
 //@   requires db != nil
 //@   ensures [no-ack-before-durable] badAcks == old(badAcks)
 //@   loop 1 invariant [no-ack-before-durable] db != nil && badAcks == old(badAcks)
 //@   loop 2 invariant [filling-errors] db != nil && badAcks == old(badAcks) && batch != nil && i >= 0
+//@   loop 2 invariant [failed-request-gets-its-error] 0 <= failedAt && failedAt < len(batch.requests) && i >= failedAt && (i > failedAt && batch.requests[failedAt] != nil ==> has(perReqErr, batch.requests[failedAt]))
 
 // C04 kernel: commit versions. newCommitTs either reports a conflict without consuming a
 // timestamp, or hands out exactly the next timestamp (strictly greater than every version
